@@ -330,7 +330,7 @@ func (fr *Frame) backEdge(p, h *ssa.BasicBlock, cond Term) {
 func (fr *Frame) bindingFailure(cl *Clause, err error) {
 	c := fr.c
 	c.oblige(&Obligation{Name: fr.oblName("binding", cl.Label), Kind: "binding", Label: cl.Label, Props: cl.Props,
-		PC: "true", Goal: "false", Where: cl.Where, Src: cl.Src + "  -- " + err.Error()})
+		PC: "true", Goal: "false", Where: cl.Where, Src: cl.Src + "  -- " + err.Error(), Status: "error", Output: "contract does not bind: " + err.Error()})
 }
 
 // edge records the condition under which control passes from -> to.
